@@ -34,7 +34,12 @@ class Trig:
         """q (Fraction, multiple of 1/2) with x == pi*q provably, else None"""
         x = Sym.lift(x)
         if x.is_numeric():
-            return Fraction(0) if x.n == 0 else None
+            if x.n == 0:
+                return Fraction(0)
+            if self.pi.is_numeric():
+                q = x.n / self.pi.n          # exact replay: pi is a fixed rational stand-in
+                return q if (2 * q).denominator == 1 else None
+            return None
         for q2 in range(-16, 17):
             q = Fraction(q2, 2)
             if self._same(x, self.pi * q):
@@ -48,7 +53,7 @@ class Trig:
             key = (x.n.get_id() if not isinstance(x.n, Fraction) else x.n, tuple(sorted(x.d.items())))
             if key in self.cache:
                 return self.cache[key]
-        q = self._pi_multiple(x) if (x.is_numeric() or self._mentions_pi(x)) else None
+        q = self._pi_multiple(x) if (x.is_numeric() or self.pi.is_numeric() or self._mentions_pi(x)) else None
         if q is not None:
             k = int(q * 2) % 4
             res = ("exact", Sym(Fraction([0, 1, 0, -1][k])), Sym(Fraction([1, 0, -1, 0][k])))
